@@ -25,6 +25,10 @@ MAX_DEPTH = 14
 OPAQUE_MODULES = ("coxeter.extern.bentley_ottmann",)
 
 
+class AbortPath(Exception):
+    """the current path ended inside an inlined callee (it raised on all its paths)."""
+
+
 class Ev:
     __slots__ = ("type", "node", "func", "path", "f")
 
@@ -311,17 +315,20 @@ class Interp:
         m = getattr(self, "s_" + type(s).__name__, None)
         if m is None:
             return st
-        self._noreturn = False
         if self.frames:
             self.frames[-1].cur_stmt = s
-        out = m(s, st)
-        if self._noreturn and type(s).__name__ in ("Expr", "Assign", "AugAssign", "AnnAssign", "Return"):
+        depth = len(self.frames)
+        nloops = len(self.frames[-1].loops) if self.frames else 0
+        nsinks = len(self.raise_sinks)
+        try:
+            return m(s, st)
+        except AbortPath:
             # a callee that never returns normally ends this path
-            self._noreturn = False
-            if type(s).__name__ == "Return" and self.frames[-1].returns and self.frames[-1].returns[-1][2] is s:
-                self.frames[-1].returns.pop()
+            del self.frames[depth:]
+            if self.frames:
+                del self.frames[-1].loops[nloops:]
+            del self.raise_sinks[nsinks:]
             return None
-        return out
 
     def s_Expr(self, s, st):
         self.ev(s.value, st)
@@ -833,7 +840,11 @@ class Interp:
             return Val()
         if prop.cached:
             self.emit(st, "read", node, loc=(base.obj.oid, prop.name), objcls=base.obj.cls, cached=True)
-        return self.call_function(prop.getter, base, [], {}, st, node, role=("getter", prop.name))
+        v = self.call_function(prop.getter, base, [], {}, st, node, role=("getter", prop.name))
+        if v.sym is None and not v.al and v.kind in ("float", "int", "unknown") and v.obj is None and v.items is None:
+            # opaque scalar: an atom named after the property (E4 treats it as one symbol)
+            v = v.copy(sym=Poly.atom(f"getter<{base.obj.oid}.{prop.name}>"))
+        return v
 
     def read_field(self, base: Val, attr, st, node) -> Val:
         obj = base.obj
@@ -1439,8 +1450,11 @@ class Interp:
         self.emit(st, "enter", node, callee=fn, entry=False, selfobj=bound_self.obj if bound_self is not None else None,
                   args=env, role=role, argvals=list(args))
         if isinstance(fn.node, ast.Lambda):
-            v = self.ev(fn.node.body, st)
-            frame.returns.append((v, st, fn.node))
+            try:
+                v = self.ev(fn.node.body, st)
+                frame.returns.append((v, st, fn.node))
+            except AbortPath:
+                del self.frames[self.frames.index(frame) + 1:]
         else:
             out = self.exec_block(fn.node.body, st)
             if out is not None:
@@ -1456,9 +1470,7 @@ class Interp:
             st.env = caller_env
             self.emit(st, "leave", node, callee=fn, role=role, value=None, noreturn=True,
                       selfobj=bound_self.obj if bound_self is not None else None)
-            st.comp = {c.name: c.copy(st.comp[c.name]) for c in self.components}
-            self._noreturn = True
-            return Val(kind="noreturn", born=self.time)
+            raise AbortPath()
         st.comp = merged.comp
         st.env = caller_env
         if frame.is_gen:
